@@ -196,7 +196,9 @@ def units():
     # public _n wrappers and the [first, last) forms (C++14 extraction, pointer iterators)
     import re as _re
     for m, thr in [('uninitialized_copy_n__pE_u8_pE', True), ('uninitialized_move_n__pE_u8_pE', False), ('uninitialized_relocate_n__pE_u8_pE', False),
-                   ('uninitialized_copy__pE_pE_pE__1f0c33', True), ('uninitialized_copy__pE_pE_pE__fc08c5', True), ('uninitialized_move__pE_pE_pE', False), ('uninitialized_relocate__pE_pE_pE', False)]:
+                   ('uninitialized_copy__pE_pE_pE__1f0c33', True), ('uninitialized_copy__pE_pE_pE__fc08c5', True), ('uninitialized_move__pE_pE_pE', False), ('uninitialized_relocate__pE_pE_pE', False),
+                   ('uninitialized_value_construct__pE_pE_penable_if_is_trivial_iterator_traits_pE__value_type__value__type', True),
+                   ('uninitialized_default_construct__pE_pE_penable_if_is_trivially_default_constructible_iterator_traits_pE__value_type__value__type', True)]:
         add('mem14.%s.NR' % _re.sub(r'\W', '', m), m, ['C15', 'C02', 'C09'], 2, 'StdVectorBase_E_A_u8', 'u8', 'ElemNR', throws_reachable=thr)
         us[-1]['cfg'] = 'main14dbg'
         if m.startswith(('uninitialized_move__', 'uninitialized_relocate__')):
